@@ -489,10 +489,12 @@ def c16():
                       "%d leaves, segment height %d index %d, hash at position %d, every unspent bitmap, any hash value" % (n, h, idx, hpos),
                       env={"VH_NLEAF": n, "VH_SEGH": h, "VH_SEGIDX": idx, "VH_HPOS": hpos}, tag="_n%d_h%d_i%d_p%d" % (n, h, idx, hpos), est=200,
                       loops=dict(HL, peak_map_height=66, pruned_segment_parent=20), mem_est_gb=6))
-    obs.append(ob("c16::prunable_segment_root_needs_unspent_leaves", "qt", 10,
-                  "a height-2 segment carrying an arbitrary subset of its four leaves plus both height-1 parent hashes: Segment::root (first step of validate) succeeds only if every leaf the bitmap marks unspent is carried, and always when all four are carried",
-                  "8-leaf MMR, segment (2, 0), every subset of carried leaves, every unspent bitmap, symbolic leaf data and hashes", est=200,
-                  loops=dict(HL, peak_map_height=66, prunable_segment_root=10), mem_est_gb=8))
+    for have, tiers in [(12, "qt"), (15, "qt"), (4, "qt"), (3, "t"), (0, "t"), (8, "t"), (14, "t"), (5, "t")]:
+        obs.append(ob("c16::prunable_segment_root_needs_unspent_leaves", tiers, 10,
+                      "a height-2 segment carrying a subset of its four leaves plus both height-1 parent hashes: Segment::root (first step of validate) succeeds only if every leaf the bitmap marks unspent is carried, and always when all four are carried",
+                      "8-leaf MMR, segment (2, 0), carried leaves = bits of %d, every unspent bitmap, symbolic leaf data and hashes" % have, est=200,
+                      env={"VH_HAVE": have}, tag="_have%d" % have, loops=dict(HL, peak_map_height=66, prunable_segment_root=10), mem_est_gb=8,
+                      allow_unsat=(["some bitmap makes this segment fail"] if have == 15 else [])))
     for n, h, idx, tiers in [(2, 0, 0, "t"), (3, 1, 0, "t"), (3, 1, 1, "t")]:
         obs.append(ob("c16::segment_sound", tiers, 8,
                       "under the ideal hash: changing a leaf's data or position, a proof hash, dropping a leaf or proof hash, or the identifier makes validate fail  [thorough-tier ATTEMPT: did not finish in 30 min at 3 leaves]",
